@@ -12,11 +12,12 @@ import (
 // C16: legacy PEG conversion bank
 
 type bankInfo struct {
-	Requests   int  `json:"requests"`
-	OverBank   int  `json:"blocks_over_bank"`
-	EqualPairs int  `json:"equal_request_pairs"`
-	PreV4      bool `json:"pre_v4_blocks"`
-	PostV4     bool `json:"post_v4_blocks"`
+	Requests    int  `json:"requests"`
+	OverBank    int  `json:"blocks_over_bank"`
+	EqualPairs  int  `json:"equal_request_pairs"`
+	PreV4       bool `json:"pre_v4_blocks"`
+	PostV4      bool `json:"post_v4_blocks"`
+	LimitInside bool `json:"limit_activates_inside_chain,omitempty"`
 }
 
 // LegacyBankEra: PegnetConversionLimit active from `start`, V4 update `v4off`
@@ -34,7 +35,16 @@ func GenBankScenario(t *rapid.T, st *Stats) (*Scenario, bankInfo) {
 	k := rapid.IntRange(5, 8).Draw(t, "k")
 	start := uint32(144*k + rapid.IntRange(1, 100).Draw(t, "off"))
 	v4off := uint32(rapid.IntRange(4, 12).Draw(t, "v4off"))
-	w := NewWorld(t, LegacyBankEra(start, v4off), 40)
+	era := LegacyBankEra(start, v4off)
+	if rapid.IntRange(0, 2).Draw(t, "limitInside") == 0 {
+		// the conversion limit activates inside the chain (before the V4 update): requests written
+		// before it execute unlimited, those still pending execute at the activation block itself
+		// against the first bank
+		era.ConvLimit = start + uint32(rapid.IntRange(3, int(v4off)-1).Draw(t, "limitOff"))
+		era.FreeFloat = era.ConvLimit
+		info.LimitInside = true
+	}
+	w := NewWorld(t, era, 40)
 	miners := w.Actors[:40]
 	// PEG is cheap relative to pFCT so that modest pFCT amounts request thousands of PEG
 	w.Price[0] = uint64(rapid.IntRange(100000, 400000).Draw(t, "pegPrice"))
@@ -366,7 +376,10 @@ func GenAdmissionScenario(t *rapid.T, st *Stats, full bool) (*Scenario, admitInf
 	var info admitInfo
 	k := rapid.IntRange(5, 8).Draw(t, "k")
 	start := uint32(144*k + rapid.IntRange(1, 100).Draw(t, "off"))
-	which := rapid.IntRange(0, 3).Draw(t, "activation")
+	which := rapid.IntRange(0, 4).Draw(t, "activation")
+	if which == 4 {
+		which = 3 // the PIP-10 family has the richest state space (rates x averages): two shares
+	}
 	A := start + 7
 	if which == 3 {
 		A = start + 12 // room for enough funded stakers to form SPR sets
@@ -391,6 +404,12 @@ func GenAdmissionScenario(t *rapid.T, st *Stats, full bool) (*Scenario, admitInf
 		era.PIP10 = A
 		era.AvgPeriod = 4
 		era.AvgRequired = 2
+		if rapid.Bool().Draw(t, "wideWindow") {
+			// a window longer than the chain so far: it is never full, and "missing" counts both the
+			// heights that have no rates yet and the zero rates inside it
+			era.AvgPeriod = 16
+			era.AvgRequired = uint64(rapid.IntRange(5, 10).Draw(t, "required"))
+		}
 	}
 	w := NewWorld(t, era, 40)
 	miners := w.Actors[:40]
